@@ -133,6 +133,34 @@ def run_case(case):
         except (Exception, SystemExit) as exc:  # noqa
             out['calls'].append(classify(exc))
         return out
+    if case['monitor'] in ('dense-online-merge', 'dense-online-binop'):
+        # the online merge called directly, and the update() wrapper of a binary online operation fed batch by batch
+        import rtamt.semantics.stl.dense_time.online.intersection as oi
+        inf = float('inf')
+        conv = lambda l: [[inf if t == 'inf' else t, inf if v == 'inf' else (-inf if v == '-inf' else v)] for t, v in l]
+        out['setup'] = {'status': 'ok', 'value': None}
+        try:
+            if case['monitor'] == 'dense-online-merge':
+                method = {'and': oi.conjunction, 'or': oi.disjunction, 'implies': oi.implication, 'iff': oi.iff, 'xor': oi.xor,
+                          'add': oi.addition, 'sub': oi.subtraction}[case['op']]
+                r = oi.intersection(conv(case['a']), conv(case['b']), method)
+                out['calls'].append({'status': 'ok', 'value': canon_val([r[0], r[1], r[2], r[3]])})
+            else:
+                import importlib
+                modname, cls = {'and': ('stl.dense_time.online.and_operation', 'AndOperation'), 'or': ('stl.dense_time.online.or_operation', 'OrOperation'),
+                                'implies': ('stl.dense_time.online.implies_operation', 'ImpliesOperation'), 'iff': ('stl.dense_time.online.iff_operation', 'IffOperation'),
+                                'xor': ('stl.dense_time.online.xor_operation', 'XorOperation'), 'add': ('arithmetic.dense_time.online.addition_operation', 'AdditionOperation'),
+                                'sub': ('arithmetic.dense_time.online.subtraction_operation', 'SubtractionOperation')}[case['op']]
+                op = getattr(importlib.import_module('rtamt.semantics.' + modname), cls)()
+                for (b1, b2) in case['batches']:
+                    a1, a2 = conv(b1), conv(b2)
+                    k1, k2 = copy.deepcopy(a1), copy.deepcopy(a2)
+                    r = op.update(a1, a2)
+                    out['calls'].append({'status': 'ok', 'value': canon_val(r), 'args_unchanged': (a1, a2) == (k1, k2)})
+                out['calls'].append({'status': 'ok', 'value': canon_val([op.sample_left_buf, op.sample_right_buf, op.last_output])})
+        except Exception as exc:  # noqa
+            out['calls'].append(classify(exc))
+        return out
     try:
         spec = make_spec(case)
         if case.get('unit'):
